@@ -252,6 +252,10 @@ pub fn wyckoff_crystal(row: &Row, general_idx: usize, rng: &mut Rng) -> Option<C
 /// re-described cell each, and the own conventional cell for every tenth of them;
 /// thorough: every row in its own cell and in two re-descriptions (the second with rotation,
 /// permutation and, for small cells, a supercell of index 2 or 3).
+/// Settings alternate between Spglib and Standard; in addition a slice of the crystals (thorough: all)
+/// is submitted with `Setting::HallNumber(h)`, `h` the generating Hall number, so that the settings
+/// neither convention reports (unique axis c / a, cell choices 2 and 3, first origin choice, ...) are
+/// exercised: every such Hall number at least once per quick run.
 pub fn gen_cases(thorough: bool, seed: u64, rng: &mut Rng, emit: &mut dyn FnMut(String, &Crystal, f64, AngleTolerance, Setting)) {
     let rows = table_rows();
     let symprecs = [1e-5, 1e-4, 1e-3, 1e-2];
@@ -261,6 +265,12 @@ pub fn gen_cases(thorough: bool, seed: u64, rng: &mut Rng, emit: &mut dyn FnMut(
     for r in rows.iter().rev() {
         general[r.hall as usize] = r.idx;
     }
+    // Hall settings that the Spglib / Standard conventions never report: reachable only through an
+    // explicit `Setting::HallNumber(h)` request (other unique axes, cell and origin choices, ...)
+    let sp_halls = Setting::Spglib.hall_numbers();
+    let st_halls = Setting::Standard.hall_numbers();
+    let reached = |h: i32| sp_halls.contains(&h) || st_halls.contains(&h);
+    let mut requested = vec![false; 531];
     for r in rows.iter() {
         if !thorough && (r.idx as u64 + seed) % 2 != 0 {
             continue;
@@ -279,6 +289,17 @@ pub fn gen_cases(thorough: bool, seed: u64, rng: &mut Rng, emit: &mut dyn FnMut(
         let lvl = 1 + (rng.range(0, 1) as u32);
         let c = redescribe(&base, rng, lvl, None);
         emit(format!("{}-re", name), &c, sp, at, settings[(r.idx + 1) % 2]);
+        // the same crystal under `Setting::HallNumber(generating Hall number)`: thorough: every row;
+        // quick: for settings unreachable otherwise the first sliced row of the Hall number and every
+        // third further one (rotating with the seed), for the others every eighth row
+        let h = r.hall as usize;
+        let slot = r.idx as u64 / 2 + seed;
+        let want = thorough || if reached(r.hall) { slot % 8 == 0 } else { !requested[h] || slot % 3 == 0 };
+        if want {
+            requested[h] = true;
+            let cell = if r.idx % 3 == 0 { &base } else { &c };
+            emit(format!("{}-hreq", name), cell, sp, AngleTolerance::Default, Setting::HallNumber(r.hall));
+        }
         if thorough {
             let sup = if base.cell.num_atoms() <= 64 && rng.chance(0.6) {
                 let all = hnfs_of_index(rng.range(2, 3) as i32);
